@@ -137,8 +137,9 @@ theorem noteClose_outPacketId (c : Conn) (b : Bunch) : (c.noteClose b).outPacket
     · exact hc
     · exact hc
 
-theorem startPacket_outPacketId (c : Conn) : c.startPacket.outPacketId = c.outPacketId := by
-  unfold Conn.startPacket; split <;> rfl
+@[simp] theorem startPacket_outPacketId (c : Conn) : c.startPacket.outPacketId = c.outPacketId := rfl
+@[simp] theorem startPacket_sendActive (c : Conn) : c.startPacket.sendActive = true := rfl
+@[simp] theorem startPacket_sendBody (c : Conn) : c.startPacket.sendBody = [] := rfl
 
 @[simp] theorem flushNow_outPacketId (e : Env) (c : Conn) : (c.flushNow e).outPacketId = c.outPacketId + 1 := rfl
 @[simp] theorem flushNow_log (e : Env) (c : Conn) : (c.flushNow e).log = .out (bitsToBytes (c.packetBits e)) :: c.log := rfl
@@ -146,10 +147,8 @@ theorem startPacket_outPacketId (c : Conn) : c.startPacket.outPacketId = c.outPa
 @[simp] theorem flushNow_lastSendMs (e : Env) (c : Conn) : (c.flushNow e).lastSendMs = e.nowMs := rfl
 @[simp] theorem flushNow_chans (e : Env) (c : Conn) : (c.flushNow e).chans = c.chans := rfl
 
-theorem startPacket_log (c : Conn) : c.startPacket.log = c.log := by
-  unfold Conn.startPacket; split <;> rfl
-theorem startPacket_chans (c : Conn) : c.startPacket.chans = c.chans := by
-  unfold Conn.startPacket; split <;> rfl
+@[simp] theorem startPacket_log (c : Conn) : c.startPacket.log = c.log := rfl
+@[simp] theorem startPacket_chans (c : Conn) : c.startPacket.chans = c.chans := rfl
 
 theorem flush_outPacketId_ge (e : Env) (c : Conn) : c.outPacketId ≤ (c.flush e).outPacketId := by
   unfold Conn.flush
